@@ -66,11 +66,12 @@ type pgen struct {
 	uid UID
 	d   *PipeDoc
 	// reusable nodes for sharing
-	envMaps   []*doc.Node
-	configs   []*doc.Node
-	values    []*doc.Node
-	templates []*doc.Node
-	sweepUsed bool
+	envMaps      []*doc.Node
+	configs      []*doc.Node
+	values       []*doc.Node
+	templates    []*doc.Node
+	pipeEnvNames []string
+	sweepUsed    bool
 }
 
 // Pipeline generates a well-formed pipeline document.
@@ -205,7 +206,26 @@ func (g *pgen) refValue(class string, depth int) *doc.Node {
 	for i := 0; i < sz; i++ {
 		n.Map = append(n.Map, doc.P(g.text(class+".key"), g.refValue(class, depth+1)))
 	}
+	g.shadowPairs(n, class)
 	return n
+}
+
+// shadowPairs adds, to a mapping built around reference snippets, pairs of
+// keys where one key's single-pass expansion has exactly the spelling of
+// another key's original name ($$X#id -> $X#id next to $X#id, and chains),
+// with the same unique id. Final names stay distinct.
+func (g *pgen) shadowPairs(n *doc.Node, class string) {
+	if len(g.o.Refs) == 0 || !g.chance(4) {
+		return
+	}
+	id := "#" + g.uid.Next()
+	chains := [][]string{{"$$X", "$X"}, {"\\$Y", "$Y"}, {"$$$$X", "$$X", "$X"}, {"$${W}", "${W}"}, {"$$X", "$X", "yval"}}
+	ch := chains[g.r.IntN(len(chains))]
+	for _, k := range ch {
+		n.Map = append(n.Map, doc.P(k+id, g.strNode(class)))
+	}
+	g.r.Shuffle(len(n.Map), func(i, j int) { n.Map[i], n.Map[j] = n.Map[j], n.Map[i] })
+	g.feat("shadow-key-chain@" + class)
 }
 
 // extras appends extra pairs to a mapping; reserved keys are never produced.
@@ -234,6 +254,7 @@ func (g *pgen) extras(m *doc.Node, class string, reserved map[string]bool, max i
 		m.Map = append(m.Map, doc.P(k, g.value(class)))
 		g.feat("extras@" + class)
 	}
+	g.shadowPairs(m, class)
 }
 
 func (g *pgen) pipeline() *doc.Node {
@@ -267,6 +288,7 @@ func (g *pgen) pipeline() *doc.Node {
 		for i := 0; i < n; i++ {
 			name := strings.ToUpper(Ident(g.r)) + "_" + g.uid.Next()
 			e.Map = append(e.Map, doc.P(name, g.typedScalar("pipeline.env", true, true)))
+			g.pipeEnvNames = append(g.pipeEnvNames, name)
 		}
 		if len(e.Map) == 0 && g.chance(2) {
 			envPair = doc.P("env", doc.Null())
@@ -596,6 +618,20 @@ func (g *pgen) stepEnv() *doc.Node {
 		}
 		e.Map = append(e.Map, doc.P(name, g.typedScalar("step.env.value", true, true)))
 	}
+	g.shadowPairs(e, "step.env.name")
+	// overlap with the pipeline env block (shadowing), sometimes with an empty value
+	if len(g.pipeEnvNames) > 0 && g.chance(3) {
+		name := g.pipeEnvNames[g.r.IntN(len(g.pipeEnvNames))]
+		if !e.Has(name) {
+			v := g.typedScalar("step.env.value", true, true)
+			if g.chance(3) {
+				v = doc.S("")
+				g.feat("env:empty-value-shadowing-pipeline-var")
+			}
+			e.Map = append(e.Map, doc.P(name, v))
+			g.feat("env:overlaps-pipeline-env")
+		}
+	}
 	g.feat("env:mapping")
 	g.envMaps = append(g.envMaps, e)
 	return e
@@ -768,6 +804,13 @@ func (g *pgen) matrix(form int) *doc.Node {
 			}
 			dims = append(dims, d)
 			s.Map = append(s.Map, doc.P(d, g.matrixValues(true)))
+		}
+		if g.chance(6) {
+			// an explicitly named empty dimension next to named ones
+			dims = append(dims, "")
+			s.Map = append(s.Map, doc.P("", g.matrixValues(true)))
+			g.r.Shuffle(len(s.Map), func(i, j int) { s.Map[i], s.Map[j] = s.Map[j], s.Map[i] })
+			g.feat("matrix:empty-named-dimension-with-others")
 		}
 		m.Map = append(m.Map, doc.P("setup", s))
 	}
